@@ -47,7 +47,7 @@ func main() {
 	if r.ReplayIn != "" {
 		var c protox.Case
 		r.LoadReplay(&c)
-		protox.Run([]protox.Case{c}, 1, 120*time.Second, nil, nil, func(o protox.Outcome) { report(r, o) })
+		protox.RunLevels([]protox.Case{c}, 1, 120*time.Second, nil, func(o protox.Outcome) { report(r, o) })
 		r.Finish()
 	}
 	r.SetBudget(8*time.Minute, 60*time.Minute)
@@ -61,13 +61,22 @@ func main() {
 		}
 		cases = f
 	}
+	// every case of a surface whose code depends on the log level (lal dumps the first received RTP / RTCP
+	// packets at debug level and every received chunk at trace level) once more at trace level
+	for i, np := 0, len(cases); i < np; i++ {
+		switch strings.SplitN(cases[i].Key, "/", 2)[0] {
+		case "api", "http", "hlssub", "flv-pull":
+		default:
+			cases = append(cases, protox.TraceTwin(cases[i]))
+		}
+	}
 	r.Cov("cases", len(cases))
 	per := map[string]int{}
 	for _, c := range cases {
 		per[strings.SplitN(c.Key, "/", 2)[0]]++
 	}
 	r.Cov("cases_per_surface", per)
-	n := protox.Run(cases, 16, 120*time.Second, nil, r.OutOfTime, func(o protox.Outcome) { report(r, o) })
+	n := protox.RunLevels(cases, 16, 120*time.Second, r.OutOfTime, func(o protox.Outcome) { report(r, o) })
 	r.Eval(n)
 	if n < len(cases) {
 		r.NotExhaustive(fmt.Sprintf("time budget: %d of %d cases executed", n, len(cases)))
@@ -95,6 +104,9 @@ func report(r *vk.Run, o protox.Outcome) {
 		show = show[:160] + "..."
 	}
 	what := fmt.Sprintf("%s input=%s frag=%d (%s)", o.Case.Key, show, d.Frag, d.Desc)
+	if protox.IsTrace(o.Case) {
+		what += " [log level trace]"
+	}
 	sk := surfStage(o.Case.Key)
 	switch {
 	case o.Killed:
